@@ -129,7 +129,8 @@ TreeCheck(tree, cur, npath, dpath, extra, obs, st, stPre, data) ==
          LET G        == GroupNode(cur, npath)
              refs     == Range(tree.e.refs)
              srcOK    == \A r \in refs : st[r] = "R"
-             decided  == \A r \in refs : st[r] # "W"
+             \* the sources are decided once all of them finished, or as soon as one of them can no longer be produced
+             decided  == (\A r \in refs : st[r] # "W") \/ (\E r \in refs : st[r] = "U")
              present  == Under(obs, dpath) # {}
              valueBad == present /\ srcOK /\ tree.e.mode = "path" /\ Under(obs, dpath) # RefExpected(tree.e, dpath, data)
          IN  IF tree.wait
